@@ -297,6 +297,56 @@ fn judge_untagged(exprs: &[E], t: &[&str], acc: &mut Acc) {
     }
 }
 
+/// A guarded field inside a guarded struct variant: each guard is judged on its own.
+fn judge_nested(gv: &[E], gf: &[E], t: &[&str], acc: &mut Acc) {
+    let (av, af) = (attrs(gv), attrs(gf));
+    let src = format!(
+        "#[typeshare]\n#[serde(tag = \"t\", content = \"c\")]\npub enum HN {{ Keep, {av} Sv {{ keep: u32, {af} guarded: u32, tail: u32 }}, Tail(u32) }}\n#[typeshare]\npub struct Control {{ pub x: u32 }}\n"
+    );
+    let (kv, shape_v) = keep(gv, t);
+    let (kf, shape_f) = keep(gf, t);
+    let cfg = Cfg { target_os: t.iter().map(|s| s.to_string()).collect(), ..Cfg::plain() };
+    acc.parses += 1;
+    acc.evals += 1;
+    if !t.is_empty() {
+        acc.nontrivial += 1;
+    }
+    let observed: Result<(bool, Option<bool>), String> = match pipeline::parse_only(&[SrcFile::single(src.clone())], &cfg) {
+        Ok(m) => match m.values().next() {
+            Some(pd) if pd.errors.is_empty() => match pd.enums.iter().find(|e| e.shared().id.original == "HN") {
+                Some(e) => {
+                    let sv = e.shared().variants.iter().find(|v| v.shared().id.original == "Sv");
+                    let field = sv.and_then(|v| match v {
+                        typeshare_core::rust_types::RustEnumVariant::AnonymousStruct { fields, .. } => Some(fields.iter().any(|f| f.id.original == "guarded")),
+                        _ => None,
+                    });
+                    Ok((sv.is_some(), field))
+                }
+                None => Err("enum HN missing".into()),
+            },
+            Some(pd) => Err(format!("parse errors: {}", pd.errors[0].error)),
+            None => Err("nothing parsed".into()),
+        },
+        Err(o) => Err(format!("failure: {}", o.kind())),
+    };
+    let expected = (kv, if kv { Some(kf) } else { None });
+    match observed {
+        Ok(o) if o == expected => {
+            if kv && kf {
+                acc.kept += 1
+            } else {
+                acc.dropped += 1
+            }
+        }
+        other => {
+            acc.vios.add(Violation {
+                sig: format!("C13|field-in-guarded-variant|expected=variant:{}/field:{:?}|observed={}|variant[{shape_v}]|field[{shape_f}]", kv, expected.1, match &other { Ok(o) => format!("variant:{}/field:{:?}", o.0, o.1), Err(e) => e.split(':').next().unwrap_or("").to_string() }),
+                detail: json!({"variant_cfg": av, "field_cfg": af, "target_os": t, "expected": format!("{expected:?}"), "observed": format!("{other:?}"), "source": src}),
+            });
+        }
+    }
+}
+
 fn merge(rep: &mut Report, name: &str, accs: Vec<Acc>, stats: crate::explore::ExploreStats, extra: serde_json::Value) {
     let mut inputs = 0u64;
     let mut nontrivial = 0u64;
@@ -402,6 +452,29 @@ pub fn run(args: &[String]) -> i32 {
             u64::MAX,
         );
         merge(&mut rep, "untagged_enum_with_guarded_data_variants", accs, stats, json!({"expr_depth": 2, "leaves": 5, "second_attribute": "none or one leaf", "target_lists": 16}));
+    }
+    // 1c. a guarded field inside a guarded struct variant (every pair of expressions of depth ≤ 2)
+    {
+        let lists = &lists4;
+        let (accs, stats) = explore(
+            |ch| {
+                gen_expr(ch, 1, &LEAVES_FULL);
+            },
+            |ch, acc: &mut Acc| {
+                let gv = gen_expr(ch, 1, &LEAVES_FULL);
+                let gf = gen_expr(ch, 1, &LEAVES_FULL);
+                let ti = ch.choose("targets", lists.len());
+                if ti == 0 {
+                    acc.inputs += 1;
+                }
+                judge_nested(&[gv], &[gf], &lists[ti], acc);
+            },
+            Mode::Product,
+            3,
+            report::threads(),
+            u64::MAX,
+        );
+        merge(&mut rep, "guarded_field_in_guarded_variant", accs, stats, json!({"expr_depth": 2, "leaves": 5, "pairs": "every (variant guard, field guard)", "target_lists": 16}));
     }
     // 2. two separate cfg attributes, each depth ≤ 2 (70 × 70), and three of depth 1 leaves
     {
